@@ -14,6 +14,9 @@ package agreement
 //      at true quiescence, no *new* own attest vote leaves the node;
 //  (4) a restart that restores crash state re-issues exactly the attests found in that state (same value), once the
 //      incarnation reaches true quiescence with persistence not gated.
+//  (5) a new own attest vote leaves the node only if persist() has *returned successfully* for (one of) the attest
+//      action(s) of that step in this incarnation (k-th attest <-> k-th persist, FIFO); in particular never after an
+//      injected crash-DB write failure ("votes dropped due to disk persistence failure" is the correct behaviour).
 //
 // Waiting is done with the services' own coservice monitors (quiescence), never with sleeps as an oracle. A case in
 // which quiescence (or a Shutdown) cannot be observed within a generous bound is counted as inconclusive and passes.
@@ -64,8 +67,7 @@ func (r *c02Runner) quiet(n *c02Node) bool {
 	if inc == nil || inc.dead.Load() {
 		return true
 	}
-	_, sum, _ := inc.activity()
-	return sum == 0
+	return inc.quietNow()
 }
 
 // stuckPattern: nothing runnable except pseudonode tasks (vote tasks waiting for persistStateDone).
@@ -96,12 +98,12 @@ func (r *c02Runner) settle(what string) bool {
 			if inc == nil || inc.dead.Load() {
 				continue
 			}
-			counts, sum, ch := inc.activity()
-			if sum == 0 {
+			counts, _, ch := inc.activity()
+			if inc.quietNow() {
 				continue
 			}
 			wait, disk := r.held(n)
-			if (wait || disk) && c02StuckPattern(counts) && (!wait || n.ledger.gateWaiters() > 0) {
+			if (wait || disk) && c02StuckPattern(counts) && counts[pseudonodeCoserviceType] > uint(inc.leak.Load()) && (!wait || n.ledger.gateWaiters() > 0) {
 				st := stable[inc]
 				if st == nil || st.changes != ch {
 					stable[inc] = &stab{ch, now}
@@ -169,7 +171,7 @@ func (r *c02Runner) crash(n *c02Node, pos string, cut *c02CutReq) bool {
 	inc := n.inc
 	dBefore := n.readD()
 	w.mu.Lock()
-	attest := n.attestSeen || pos == "before-persist"
+	attest := n.attestSeen || pos == "before-persist" || pos == "after-failed-persist"
 	n.armVote = ""
 	n.armPersist = false
 	w.noteDLocked(n, dBefore, fmt.Sprintf("crash of n%d.%d", n.idx, inc.id))
@@ -268,6 +270,7 @@ func (r *c02Runner) cleanup() {
 		n.armVote = ""
 		n.armPersist = false
 		n.holdActive = false
+		n.slowVotes = false
 		var cut *c02CutReq
 		if n.inc != nil {
 			cut = n.inc.cutReq
@@ -570,8 +573,8 @@ func (r *c02Runner) parked(n *c02Node) bool {
 	if inc == nil || inc.dead.Load() {
 		return false
 	}
-	c, sum, _ := inc.activity()
-	return sum > 0 && c02StuckPattern(c)
+	c, _, _ := inc.activity()
+	return !inc.quietNow() && c02StuckPattern(c)
 }
 
 // holdWait: Ledger.Wait(round-1) does not fire => persist() is not reached => no new own attest vote may appear.
@@ -660,6 +663,58 @@ func (r *c02Runner) holdDisk() bool {
 	return r.settle("release disk hold")
 }
 
+// persistFail: the next write(s) of the crash state fail (sqlite trigger raising "disk full"): persist() returns an
+// error, the checkpoint carries it, the votes of that attest must be dropped. Optionally the vote task is kept busy
+// until the failed persist has returned, and the node is crashed afterwards (it restarts from the older crash state
+// and may legitimately choose another value: the first vote was never released).
+func (r *c02Runner) persistFail(n *c02Node, fast bool, times int, slow bool, crashAfter bool) bool {
+	if !r.quiet(n) {
+		r.label("fault-skipped-not-quiet")
+		return true
+	}
+	if w, d := r.held(n); w || d {
+		return true
+	}
+	r.step("crash-DB writes of n%d fail (next %d), trigger fast=%v, slow vote task=%v, crash afterwards=%v", n.idx, times, fast, slow, crashAfter)
+	if !n.failTriggerOn(times) {
+		r.label("fault-unavailable")
+		return true
+	}
+	r.label("fault:persist-fails")
+	r.w.mu.Lock()
+	n.slowVotes = slow
+	inc0 := n.inc
+	base := inc0.failedCount
+	r.w.mu.Unlock()
+	failedNow := func() bool {
+		r.w.mu.Lock()
+		defer r.w.mu.Unlock()
+		return n.inc == inc0 && inc0.failedCount > base
+	}
+	ok := r.trigger(n, fast, 3, failedNow)
+	r.w.mu.Lock()
+	n.slowVotes = false
+	r.w.mu.Unlock()
+	n.failTriggerOff()
+	r.w.logf("     crash-DB writes of n%d succeed again", n.idx)
+	if !ok {
+		return false
+	}
+	if failedNow() {
+		r.label("fault:persist-failed-observed")
+	} else {
+		r.label("fault:no-attest-reached")
+	}
+	if crashAfter {
+		pos := "quiescent"
+		if failedNow() {
+			pos = "after-failed-persist"
+		}
+		return r.crashNow(n, pos)
+	}
+	return true
+}
+
 // benignRound: deliver everything until nothing is in flight, then let every node's step timer expire.
 func (r *c02Runner) benignRound() bool {
 	for k := 0; k < 4; k++ {
@@ -679,10 +734,11 @@ func (r *c02Runner) benignRound() bool {
 
 var c02Weights = map[string][]int{
 	//            dAll dLnk drop tAll tSome fast crash cVote cPers hWait hDisk dbl
-	"progress": {30, 8, 2, 22, 6, 6, 5, 7, 7, 4, 4, 3},
-	"isolated": {6, 14, 8, 12, 14, 12, 6, 8, 8, 5, 5, 4},
-	"crashy":   {14, 8, 3, 14, 8, 8, 8, 12, 12, 4, 4, 8},
-	"holdy":    {14, 8, 3, 14, 8, 8, 4, 5, 5, 14, 14, 3},
+	//                                                                     dbl pFail
+	"progress": {30, 8, 2, 22, 6, 6, 5, 7, 7, 4, 4, 3, 6},
+	"isolated": {6, 14, 8, 12, 14, 12, 6, 8, 8, 5, 5, 4, 8},
+	"crashy":   {14, 8, 3, 14, 8, 8, 8, 12, 12, 4, 4, 8, 10},
+	"holdy":    {14, 8, 3, 14, 8, 8, 4, 5, 5, 14, 14, 3, 12},
 }
 
 func (r *c02Runner) doStep(profile string) bool {
@@ -725,7 +781,7 @@ func (r *c02Runner) doStep(profile string) bool {
 		return r.holdWait()
 	case 10:
 		return r.holdDisk()
-	default:
+	case 11:
 		n := r.pickVictim("dc")
 		r.label("double-crash")
 		r.w.st.doubleCrash++
@@ -733,6 +789,13 @@ func (r *c02Runner) doStep(profile string) bool {
 			return false
 		}
 		return r.crashNow(n, "quiescent-second")
+	default:
+		n := r.w.nodes[rapid.IntRange(0, len(r.w.nodes)-1).Draw(r.t, "pfNode")]
+		fast := rapid.IntRange(0, 3).Draw(r.t, "pfFast") == 0
+		times := rapid.IntRange(1, 2).Draw(r.t, "pfTimes")
+		slow := rapid.IntRange(0, 2).Draw(r.t, "pfSlow") > 0
+		crashAfter := rapid.IntRange(0, 2).Draw(r.t, "pfCrash") > 0
+		return r.persistFail(n, fast, times, slow, crashAfter)
 	}
 }
 
@@ -856,6 +919,14 @@ func c02RunCase(t *rapid.T, tt *testing.T, vk *vkCtx) {
 	vk.Add("persistence gates with an attest parked behind them", int64(st.stuckSettles))
 	vk.Add("restored attests checked", int64(st.promisesChecked))
 	vk.Add("double crashes", int64(st.doubleCrash))
+	vk.Add("persist failures injected and observed", int64(st.persistFailed))
+	vk.Add("vote tasks that dropped their votes after a failed persist", int64(st.votesDropped))
+	vk.Add("vote tasks delayed past their persist", int64(st.slowVotes))
+	vk.Add("new own votes matched to a persist outcome (oracle 5)", int64(st.o5Checked))
+	vk.Add("new own votes without a logged attest (oracle 5 skipped)", int64(st.o5Unmatched))
+	if st.votesDropped > 0 {
+		add("votes-dropped-after-failed-persist")
+	}
 	vk.Add("messages delivered", int64(st.delivered))
 	vk.Add("crash-after-attest then voted again", int64(st.votedAfterRestart))
 	if vk.WantSample(nontrivial) {
@@ -866,7 +937,7 @@ func c02RunCase(t *rapid.T, tt *testing.T, vk *vkCtx) {
 
 func TestVerif_C02_Crashes(t *testing.T) {
 	vk := vkBegin(t, "C02")
-	vk.Rule("3-5 real agreement.Service instances (one account each) + 0-2 silent accounts; a drawn script of deliveries/drops per link and message class, step/fast timeouts at quiescence, crashes (at quiescence, at the instant the first new own attest vote reaches the network - delivered or lost, right after persist() before the vote is released, while persist is gated), double crashes, Ledger.Wait holds and crash-DB write locks; non-trivial = a node crashed after it had produced an attest (vote seen, state persisted, or persist pending) and released a further own attest vote after the restart; distinct by script")
+	vk.Rule("3-5 real agreement.Service instances (one account each) + 0-2 silent accounts; a drawn script of deliveries/drops per link and message class, step/fast timeouts at quiescence, failing crash-DB writes (sqlite trigger, optionally with the vote task delayed past the failed persist), crashes (at quiescence, at the instant the first new own attest vote reaches the network - delivered or lost, right after persist() before the vote is released, while persist is gated), double crashes, Ledger.Wait holds and crash-DB write locks; non-trivial = a node crashed after it had produced an attest (vote seen, state persisted, or persist pending) and released a further own attest vote after the restart; distinct by script")
 	vk.Assume("sqlite commits are atomic (no torn writes); the test ledger is durable; one participation account per node")
 	oldTO := deadlock.Opts.DeadlockTimeout
 	deadlock.Opts.DeadlockTimeout = 10 * time.Minute
@@ -883,15 +954,20 @@ func TestVerif_C02_Crashes(t *testing.T) {
 // with an empty state, the second restart started fresh and the node voted again in a step it had already voted in.)
 func TestVerif_C02_DoubleCrash(t *testing.T) {
 	vk := vkBegin(t, "C02")
-	vk.Rule("fixed scripts: k in {1,2,3} running nodes of 5 accounts (no quorum possible); soft vote, crash, restart, crash, restart, more timeouts; variants: crash at quiescence / right after persist / at vote release; non-trivial = the node voted again after the second restart")
+	vk.Rule("fixed scripts: k in {1,2,3} running nodes of 5 accounts (no quorum possible); soft vote, crash, restart, crash, restart, more timeouts; variants: crash at quiescence / right after persist / at vote release; a fourth family fails the crash-DB write of the first attest (votes must be dropped) before the crashes; non-trivial = the node voted again after the second restart")
 	oldTO := deadlock.Opts.DeadlockTimeout
 	deadlock.Opts.DeadlockTimeout = 10 * time.Minute
 	defer func() { deadlock.Opts.DeadlockTimeout = oldTO }()
 	c02Accounts(t)
-	for variant := 0; variant < 6; variant++ {
+	for variant := 0; variant < 9; variant++ {
 		nRun := 1 + variant%3
 		mode := []string{"quiescent", "after-persist", "at-release"}[(variant/2)%3]
-		w := c02NewWorld(t, nRun, 5-nRun, variant >= 3)
+		if variant >= 6 {
+			// the write of the first attest's state fails; the vote task is kept busy until that persist has returned;
+			// the votes must be dropped; then crash, restart (no crash state: fresh start, other block), crash, restart, go on
+			mode = "failed-persist"
+		}
+		w := c02NewWorld(t, nRun, 5-nRun, variant >= 3 && variant != 6)
 		r := &c02Runner{fatalf: t.Fatalf, w: w, lab: make(map[string]int)}
 		func() {
 			defer r.cleanup()
@@ -921,6 +997,31 @@ func TestVerif_C02_DoubleCrash(t *testing.T) {
 				chk("soft")
 				if ok {
 					ok = r.crashNow(n0, "quiescent")
+				}
+			case "failed-persist":
+				if ok {
+					if !n0.failTriggerOn(1) {
+						t.Fatalf("c02: cannot install the failing trigger on the crash DB")
+					}
+					w.mu.Lock()
+					n0.slowVotes = true
+					w.mu.Unlock()
+					_, ok = r.fire(r.allNodes(), false)
+					w.mu.Lock()
+					n0.slowVotes = false
+					failed, dropped := w.st.persistFailed, w.st.votesDropped
+					w.mu.Unlock()
+					n0.failTriggerOff()
+					if ok && failed == 0 {
+						vk.Label("fixed:fault-not-observed")
+					}
+					if ok && dropped > 0 {
+						vk.Label("fixed:votes-dropped")
+					}
+				}
+				chk("failed persist")
+				if ok {
+					ok = r.crashNow(n0, "after-failed-persist")
 				}
 			case "after-persist":
 				w.mu.Lock()
